@@ -175,6 +175,9 @@ func run(prop, tier, funcFilter string, verbose bool) (*report, error) {
 	if lem != nil {
 		rep.Funcs = append(rep.Funcs, lem)
 	}
+	if fb := prog.VerifyForbids(prop); fb != nil && funcFilter == "" {
+		rep.Funcs = append(rep.Funcs, fb)
+	}
 	rep.WallGen = time.Since(t1).Seconds()
 	t2 := time.Now()
 	tmp, err := os.MkdirTemp("", "govc-"+prop+"-")
@@ -223,6 +226,19 @@ func run(prop, tier, funcFilter string, verbose bool) (*report, error) {
 			o := r.O
 			if _, skip := exclSkip[o.Name]; skip {
 				r.Status = "excluded"
+				return
+			}
+			if o.Static != "" {
+				// decided by the generator's call-graph scan
+				r.Res = vc.SolveResult{Solver: "govc-callscan", Output: o.Note}
+				r.Query = "; " + o.Note + "\n"
+				if o.Static == "ok" {
+					r.Res.Status = "unsat"
+					r.Status = "discharged"
+				} else {
+					r.Res.Status = "sat"
+					r.Status = "refuted"
+				}
 				return
 			}
 			var q string
